@@ -178,6 +178,9 @@ func runC06(t *testing.T, p *core.Plan) *core.Result {
 	cfg.QueueSize = p.Knob("queue", 100)
 	cfg.Inflight = p.Knob("inflight", 10)
 	cfg.GateBackend = p.Knob("gate", 0) == 1
+	// pipelining more QoS 2 publishes than publish tokens stalls the connection
+	// until the token timeout by design; that regime belongs to C14/C16
+	cfg.ParPublishes, cfg.ParSubscribes = 128, 128
 	conc := p.Knob("conc", 0) == 1
 	var w *World
 	ptxt := core.Bubble(t, p.Seed, p.Yield, func() {
